@@ -155,7 +155,8 @@ def canon(f, rename=None):
                 a = sorted(a)
             extra = ""
             if x.is_quantifier():
-                extra = "[" + ",".join(sorted("%s:%s" % (v.symbol_name(), v.symbol_type()) for v in x.quantifier_vars())) + "]"
+                extra = "[" + ",".join(sorted("%s:%s" % (rename(v.symbol_name()) if rename is not None else v.symbol_name(), v.symbol_type())
+                                                     for v in x.quantifier_vars())) + "]"
             elif x.is_function_application():
                 extra = "[" + x.function_name().symbol_name() + "]"
             elif x._content.payload is not None:
